@@ -362,7 +362,8 @@ class Symbol(LExprTerminal):
 class MultiIndex(LExpr):
     """A multi-index for accessing tensors flattened in memory."""
 
-    precedence = PRECEDENCE.SYMBOL
+    # Formatted as its global index, which is a sum of products
+    precedence = PRECEDENCE.ADD
 
     def __init__(self, symbols: list, sizes: list):
         """Initialise."""
